@@ -195,7 +195,8 @@ class Judge:
             return False
         d = max([abs(x - y) for x, y in zip(a, b)] + [0.0])
         rel = d / scale if scale > 0 else 0.0
-        self.worst[cls] = max(self.worst.get(cls, 0.0), rel / tol)
+        if rel <= tol:
+            self.worst[cls] = max(self.worst.get(cls, 0.0), rel / tol)  # margin of the comparisons that pass
         if not rel <= 1.0 * tol:
             k = max(range(len(a)), key=lambda i: abs(a[i] - b[i]))
             self.fail(key, "%s: component %d is %.17g, expected %.17g (difference %.3g relative to the magnitude %.6g, tolerance %.1g)" % (
